@@ -1,4 +1,5 @@
 import AcraModel.Sql.RedactLemmas
+import AcraModel.Sql.LogModel
 /-!
 # C16 — literal values from statements never appear in logs nor in the redacted form
 
@@ -156,6 +157,61 @@ theorem fresh_names (pfx : Bytes) (s : St) :
 /-- distinct counters give distinct names (so two generated placeholders coincide only by dedup) -/
 theorem names_injective (pfx : Bytes) (a b : Nat) (h : nameOf pfx a = nameOf pfx b) : a = b := nameOf_inj pfx h
 
+open LogModel in
+/-- **Only redacted text (or none) reaches a log call.** In the model of the query-logging path – the
+proxies' debug block followed by `AcraCensor.HandleQuery` with any list of handlers, any handler decisions,
+either parse-error policy and either level – every entry prints a constant message, or the redacted
+statement; never the raw or the merely normalised statement. (The model is compared entry by entry with
+the captured output of the real AcraCensor and handlers: op `C16.logtrace`.) -/
+theorem log_args_redacted (c : Config) (p : Parse) :
+    ∀ e ∈ (proxyQuery c p).1, e.payload = none ∨ e.payload = some .redacted := by
+  intro e he
+  have he := mem_proxyQuery he
+  unfold proxyQueryAll at he
+  simp only [List.mem_append] at he
+  rcases he with (hd | hq) | hb
+  · cases hdbg : c.debug <;> simp [hdbg] at hd
+    cases p <;> simp at hd <;> (rw [hd]; simp)
+  · unfold handleQuery at hq
+    split at hq
+    · simp at hq
+    · cases p with
+      | fail =>
+        simp only at hq
+        split at hq
+        · rcases List.mem_cons.mp hq with h | h
+          · rw [h]; simp
+          · exact runHandlers_payload _ _ e h
+        · simp at hq; rw [hq]; simp
+      | ok b => exact runHandlers_payload _ _ e hq
+  · split at hb <;> simp at hb
+    rw [hb]; simp
+
+open LogModel in
+/-- **Unparseable statements never appear in log messages.** When `HandleRawSQLQuery` reports a syntax error
+no entry on the path carries any statement text at all – whatever the handlers, the parse-error policy
+(`ignore_parse_error`) and the level. (The operator's separate capture file, `parse_errors_log`, is not a log.) -/
+theorem unparseable_never_logged (c : Config) :
+    ∀ e ∈ (proxyQuery c .fail).1, e.payload = none := by
+  intro e he
+  have he := mem_proxyQuery he
+  unfold proxyQueryAll at he
+  simp only [List.mem_append] at he
+  rcases he with (hd | hq) | hb
+  · cases hdbg : c.debug <;> simp [hdbg] at hd
+    rw [hd]
+  · unfold handleQuery at hq
+    split at hq
+    · simp at hq
+    · simp only at hq
+      split at hq
+      · rcases List.mem_cons.mp hq with h | h
+        · rw [h]
+        · exact runHandlers_fail _ e h
+      · simp at hq; rw [hq]
+  · split at hb <;> simp at hb
+    rw [hb]
+
 /-! ## non-vacuity -/
 
 /-- `select a from t where b = X'AB' union select c from u limit 7`-like tree: covered, with literals. -/
@@ -167,5 +223,11 @@ def exampleTree : Tree :=
 example : covered exampleTree = true := by decide
 example : lits exampleTree = [[65, 66], [55]] := by decide
 example : lits (redact (fun _ _ => true) exampleTree) = [] := redact_no_literals _ _ (by decide)
+
+open LogModel in
+/-- a configuration in which text is printed: debug level, a deny-by-table handler that blocks -/
+example : (proxyQuery ⟨[.capture, .security .deny true], false, false, true⟩ (.ok false)).1 =
+    [⟨.proxyNewQuery, some .redacted⟩, ⟨.handlerOwn, none⟩, ⟨.deniedShown, some .redacted⟩, ⟨.deniedBy, none⟩,
+     ⟨.censorBlocked, none⟩] := by decide
 
 end AcraModel.Props.C16
